@@ -31,10 +31,10 @@ CFG = {
         "golden file with runs: Spec.decode gives the documented set": r"^spec_decode hex:3b30.* => ok len=200100 eh=2caf1734041d0c65 rest=0 same=false",
     },
     "gaps": [
-        "C06 is proved for streams whose chunks are array chunks (C06_arrays_partial); run and bitset chunks need the "
-        "Store.insert_range / BitmapStore kernel lemmas (library under construction) and are covered by the "
-        "correspondence + the runtime !SPEC cross-check of the driver only",
-        "the 64-bit portable format is handled by the treemap family",
+        'the full statement (C06_statement: Spec.decode bs = some (S, rest) -> both decoders return a WF value with elems = S and the same rest) is NOT proved',
+        "proved: C06_standard_partial (the decoders invert the reference encoder on the standard encoding of any WF value's elements, with arbitrary trailing bytes; modulo Kernel.bitmap_toArray) and C06_checked_wf_partial (whatever the checked decoder accepts is WF; modulo Kernel.runStore_wf)",
+        "streams with run chunks, the offset-less header, non-canonical chunk kinds: covered by the correspondence against the independent conformant encoder and the driver's run-time !SPEC cross-check (elems (decode s) = Spec.decode s) only; need the Store.insert_range / BitmapStore kernel lemmas",
+        'the 64-bit portable format is handled by the treemap family',
     ],
     "level_text": "Lean 4 theorem that every stream accepted by the strict reference decoder Spec.decode (written from the "
                   "format specification, cross-validated against the upstream golden files and an independent Rust "
